@@ -10,6 +10,15 @@
  * every prefix of a history is itself an enumerated history.  Short histories additionally kill the restart itself
  * (before each tracked call of coap_persist_startup and right after it) and restart once more.
  *
+ * Histories may CONTINUE after a restart: a marker between two operations (stop+restart: coap_persist_stop +
+ * coap_free_context; kill+restart: the process dies between two operations) ends the server
+ * process, and the following operations run in a fresh process after coap_persist_startup on the same files, i.e. on the
+ * restored resources and observations.  All lives of a history fill one report (tracked calls, call-outs - the loader of
+ * a later life is one more updater of the files, "startup" -, snapshots and Observe values are numbered through), the
+ * reference model of acknowledged state is a function of the operations and carries across; the last operation has the
+ * kill points and the final restart is judged as before.  Not enumerated: a kill inside an operation (or inside the
+ * loader) that is followed by further operations.
+ *
  * Oracle (reference = the acknowledged operations; the interrupted one may or may not have taken effect):
  *  (1) torn: / emptied: / mixed: <file>:<updater>@<call that was not made any more>
  *        each file after the kill, read by the independent parser below, equals the content before the interrupted
@@ -20,15 +29,21 @@
  *        restart restores exactly the acknowledged state; <cause> names where the record went:
  *        dropped-by:<updater> (a completed call-out removed it), never-written-by:<updater>,
  *        dropped-by-crash-in:<updater>, not-loaded (record is in the file, the loader did not restore it);
- *  (3) observe-not-greater:after-restart:<crash-free | crash-in:<updater of the counter file> | kill-in-restart>
+ *        a stale record that is still in the file names the call-out that had to take it out: still-in-file:kept-by:<updater>
+ *        (e.g. observe_deleted of a restored observation), :re-added-by:<updater>, :no-call-out;
+ *  (3) observe-not-greater:after-restart:<crash-free | crash-in:<updater of the counter file> | kill-in-restart | mid-history>
  *        first Observe value after restart is serial-greater (RFC 7641 3.4) than every value of that observation
- *        that was put on the wire before the kill;
+ *        that was put on the wire before the kill, in any earlier life (mid-history: the same for the values sent
+ *        after a restart inside the history);
  *  leak:<life1|restart>:<libcoap function>   LeakSanitizer at the end of a graceful life (coap_persist_stop +
  *        coap_free_context); any other sanitizer report / assert of a life process ends the execution abnormally
  *        with the report in the execution's stderr, where vx names it.
  *
  * Knobs for experiments (not used by bin/check): C17_FULL_DEPTH (histories with kills), C17_FREE_DEPTH (kill free
- * histories), C17_LIVES3_DEPTH (kill in the restart), C17_DOUBLE_DEPTH (kill in life 1 and in the restart).
+ * histories), C17_LIVES3_DEPTH (kill in the restart), C17_DOUBLE_DEPTH (kill in life 1 and in the restart); for histories
+ * with a mid-history restart (depth = operations, markers not counted): C17_RST_FULL_DEPTH, C17_RST_FREE_DEPTH,
+ * C17_RST_LIVES3_DEPTH, C17_RST_KILL_DEPTH (kill+restart markers), C17_RST2_DEPTH (two markers; >= 3 to have any),
+ * C17_RST2_KILL (two markers may be kill+restart).
  */
 #ifndef _GNU_SOURCE
 #define _GNU_SOURCE
@@ -951,8 +966,6 @@ do_op(int i) {
   }
 }
 
-/* One life of the history: the operations from R->seg_first_op up to the next restart marker (then a graceful stop or a
- * kill between two operations, as the marker says) or up to the end of the history (then as before: kill point / end). */
 static void *g_heap_shift[17 * (MAXOPS + 2)];
 static void
 heap_shift(int life) {
@@ -962,6 +975,8 @@ heap_shift(int life) {
   for (int i = 0; i < 17 * life && i < (int)(sizeof g_heap_shift / sizeof g_heap_shift[0]); i++)
     g_heap_shift[i] = malloc(sizeof(coap_subscription_t));
 }
+/* One life of the history: the operations from R->seg_first_op up to the next restart marker (then a graceful stop or a
+ * kill between two operations, as the marker says) or up to the end of the history (then as before: kill point / end). */
 static void
 life_segment(int die_at) {
   int seg = R->seg, a = R->seg_first_op;
@@ -1221,8 +1236,10 @@ run_history(const struct scn *scn, const char *dir, int die_at, struct report *r
     rep->started = rep->ops_complete = rep->finished = 0;
     char who[80];
     snprintf(who, sizeof who, "life%d(%s%s)", seg + 1, what, last ? "" : want_kill ? ", killed before the next operation" : ", stopped before the next operation");
+    /* LeakSanitizer only at the end of the last life: a life that ends at a stop+restart marker is, process for process,
+     * the last life of the shorter history that ends there, and that history is enumerated too */
     int sv = g_leakcheck;
-    g_leakcheck = leakcheck;
+    g_leakcheck = leakcheck && last;
     int st = run_life(0, scn, dir, die_at, rep);
     g_leakcheck = sv;
     helper_must(st, want_kill, rep, who);
@@ -1399,7 +1416,9 @@ explain_stale(const struct report *r1, int f, int peer, int res, char *out, size
     parse_file(f, r1->blob + u->post.off[f], u->post.len[f], &post);
     int was = pfile_has(f, &pre, peer, res), is = pfile_has(f, &post, peer, res);
     int own_add = (f == F_DYN && u->type == U_DYN_ADDED && u->res == res) || (f == F_OBS && u->type == U_OBS_ADDED && u->res == res && u->peer == peer);
-    int remover = (u->type == U_RES_DELETED && u->res == res) || (f == F_OBS && u->type == U_OBS_DELETED && u->res == res && u->peer == peer);
+    /* (observe_deleted of a resource that is being deleted: the subscription is not reachable from the context any more, res unknown) */
+    int remover = (u->type == U_RES_DELETED && u->res == res) ||
+                  (f == F_OBS && u->type == U_OBS_DELETED && u->peer == peer && (u->res == res || (u->res < 0 && was)));
     if (own_add)
       kept = readded = NULL;
     else if (remover && is)
@@ -1575,6 +1594,11 @@ run(void *arg) {
   make_addrs();
   struct report *dry = rep_alloc(), *r1 = NULL, *r2 = rep_alloc(), *r2b = NULL, *r3 = NULL;
   vx_observe("scenario %s", scn->name);
+  for (int i = 0; i < scn->nops; i++)
+    if (scn->ops[i].t == OP_RST) {
+      vx_nontrivial(); /* the history continues on restored state */
+      break;
+    }
 
   /* ---- dry run: the crash free life 1 ---- */
   int st, dry_cached = cache_load(scn, dry);
@@ -1917,7 +1941,7 @@ generate(int f, int depth, int (*policy)(const struct op *, int, int *, int *)) 
 }
 
 static int T_full_depth, T_free_depth, T_lives3_depth, T_double_depth;
-static int T_rst_full_depth, T_rst_free_depth, T_rst_lives3_depth, T_rst_kill_depth, T_rst2_depth;
+static int T_rst_full_depth, T_rst_free_depth, T_rst_lives3_depth, T_rst_kill_depth, T_rst2_depth, T_rst2_kill;
 static int
 policy(const struct op *ops, int n, int *bound, int *lives) {
   int nrst = 0, nkill = 0;
@@ -1928,7 +1952,7 @@ policy(const struct op *ops, int n, int *bound, int *lives) {
     }
   if (nrst) { /* histories that continue after a restart: depth = number of operations, the markers not counted */
     n -= nrst;
-    if (nrst > 1 && n > T_rst2_depth)
+    if (nrst > 1 && (n > T_rst2_depth || (nkill && !T_rst2_kill)))
       return 0;
     if (nkill && n > T_rst_kill_depth)
       return 0;
@@ -1984,7 +2008,7 @@ main(int argc, char **argv) {
   T_rst_free_depth = Tq ? 4 : 3;   /* no kill after the mid-history restart */
   T_rst_lives3_depth = Tq ? 2 : 0; /* kill in the judged restart as well */
   T_rst_kill_depth = Tq ? 4 : 3;   /* the mid-history restart may follow a kill between two operations instead of a graceful stop */
-  T_rst2_depth = Tq ? 3 : 0;       /* two mid-history restarts */
+  T_rst2_depth = 3;                /* two mid-history restarts (needs 3 operations: one before, between and after) */
   if ((e = getenv("C17_RST_FULL_DEPTH")))
     T_rst_full_depth = atoi(e);
   if ((e = getenv("C17_RST_FREE_DEPTH")))
@@ -1993,8 +2017,11 @@ main(int argc, char **argv) {
     T_rst_lives3_depth = atoi(e);
   if ((e = getenv("C17_RST_KILL_DEPTH")))
     T_rst_kill_depth = atoi(e);
+  T_rst2_kill = Tq;                /* ... of which some may be kill+restart */
   if ((e = getenv("C17_RST2_DEPTH")))
     T_rst2_depth = atoi(e);
+  if ((e = getenv("C17_RST2_KILL")))
+    T_rst2_kill = atoi(e);
   static const int freqs[3] = {1, 2, 10};
   int maxd = T_full_depth > T_free_depth ? T_full_depth : T_free_depth;
   gen_rst_depth = T_rst_full_depth > T_rst_free_depth ? T_rst_full_depth : T_rst_free_depth;
@@ -2017,15 +2044,37 @@ main(int argc, char **argv) {
     memcpy(scns, tmp, sizeof *tmp * (size_t)nscn);
     free(tmp);
   }
-  vx_ev_rule("histories = all well-formed operation sequences over {put(d1..d3), del, reg(p1|p2, s1|d1|d2), cancel, chg(r) x {1,f,f+1}} up to the "
+  {
+    static char rule[3000];
+    snprintf(rule, sizeof rule,
+             "histories = all well-formed operation sequences over {put(d1..d3), del, reg(p1|p2, s1|d1|d2), cancel, chg(r) x {1,f,f+1}} up to the "
              "tier's depth (names and observers introduced in order = modulo renaming; chg only where somebody observes), save_freq f in {1,2,10}; "
              "each history runs on a real libcoap server (unknown-resource PUT handler as in examples/coap-server.c, coap_persist_startup) in its "
              "own process; crash points = a kill before every tracked stdio/rename/remove call of the history's last operation plus after the last "
              "call (kills in earlier operations are the crash points of the shorter history), then restart in a fresh process; short histories "
-             "additionally kill the restart itself before each of its calls and restart again; non-trivial = a kill happened; distinct = distinct logs");
+             "additionally kill the restart itself before each of its calls and restart again; "
+             "restart-free histories: kill points up to %d operations (kill in the judged restart up to %d, in both up to %d), kill-free up to %d; "
+             "histories that CONTINUE after a restart: a marker between two operations (never first or last) ends the server process - "
+             "stop+restart = coap_persist_stop + coap_free_context, kill+restart = process death between two operations - and "
+             "the next operations run in a fresh process after coap_persist_startup on the same three files, on the restored resources / "
+             "observations (same peers, same tokens); the reference of acknowledged state, the Observe values on the wire and the file snapshots "
+             "around every call-out and around every loader run carry across all lives; the last operation has the kill points and the final "
+             "restart is judged as before, plus: every Observe value sent after a mid-history restart is greater than all sent to that "
+             "observation in earlier lives; with one marker at every position: kill points in the last operation up to %d operations (marker "
+             "not counted; plus kill in the judged restart up to %d), kill-free up to %d; kill+restart markers up to %d operations; two markers "
+             "up to %d operations (0 = none in this tier)%s; LeakSanitizer runs at the graceful end of the last life (a life ending at a "
+             "stop+restart marker is the last life of the shorter enumerated history); not enumerated: a kill INSIDE an operation or inside the loader followed by further "
+             "operations (only by the judged restart); non-trivial = a kill happened or the history continued after a restart; distinct = distinct logs",
+             T_full_depth, T_lives3_depth, T_double_depth, T_free_depth, T_rst_full_depth, T_rst_lives3_depth, T_rst_free_depth,
+             T_rst_kill_depth < gen_rst_depth ? T_rst_kill_depth : gen_rst_depth, gen_rst_max >= 2 ? T_rst2_depth : 0,
+             T_rst2_kill ? "" : ", both stop+restart");
+    vx_ev_rule(rule);
+  }
   vx_ev_assumption("a kill loses user-space stdio buffers and keeps every completed system call (process death, not power loss: no fsync modelling)");
   vx_ev_assumption("observers are UDP peers that acknowledge Confirmable notifications; no OSCORE, no Block2 in the registration request");
   vx_ev_assumption("crash-free executions end with coap_persist_stop() + coap_free_context() as coap_persist(3) prescribes");
+  vx_ev_assumption("every incarnation of the server is a fresh process with the same static resource, endpoint address and save_freq; subscription "
+                   "addresses (the keys of the observe file) differ between incarnations, as with real processes");
   for (int i = 0; i < nscn; i++)
     if (vx_replay_if_match(scns[i].name, run, &scns[i]))
       return 0;
